@@ -1,6 +1,7 @@
 import Martian.Lexer
 import Martian.Regex
 import Martian.Tokenizer
+import Martian.LexerActions
 import Gen.Facts
 import Driver.Util
 
@@ -40,6 +41,38 @@ def lexStr (b : Bytes) : String :=
   listStr (toks.map fun t => s!"{t.id}:{hexOfBytes t.text}:{t.line}:{t.col}") ++ " | " ++
   listStr (cms.map fun c => s!"{c.1}:{c.2.1}:{hexOfBytes c.2.2}") ++ " | " ++
   toString (b.length - raw.2.length)
+
+/-! action level (`Martian.LexerActions`) -/
+open Martian.LexerActions in
+def siteOf : String → Option Site
+  | "float32" => some .float32 | "threads" => some .threads | "mem_gb" => some .memGb | "vmem_gb" => some .vmemGb
+  | "special" => some .special | "include" => some .incl | "help" => some .help | "outname" => some .outName
+  | "mapkey" => some .mapKey | "src" => some .src | "valexp" => some .valExp
+  | _ => none
+
+open Martian.LexerActions in
+def kindOf : String → Option Kind
+  | "NUM_INT" => some .numInt | "NUM_FLOAT" => some .numFloat | "LITSTRING" => some .litString
+  | _ => none
+
+open Martian.LexerActions in
+def valStr : Val → String
+  | .int i => "int " ++ toString i
+  | .float _ => "float"
+  | .f32 (some i) => "f32 " ++ toString i
+  | .f32 none => "f32 ?"
+  | .str b => "str " ++ hexOfBytes b
+  | .src p args => "src " ++ hexOfBytes p ++ " " ++ hexList args
+
+def actValStr : Action Martian.LexerActions.Val → String
+  | .ok v => "ok " ++ valStr v
+  | .error => "error"
+  | .panic => "panic"
+
+def actIntStr : Action Int → String
+  | .ok v => "ok " ++ toString v
+  | .error => "error"
+  | .panic => "panic"
 
 def handle (op : String) (args : List String) : Option String :=
   match op, args with
@@ -114,6 +147,25 @@ def handle (op : String) (args : List String) : Option String :=
     let b ← bytesOfHex s
     let nt := Martian.Tokenizer.nextToken b
     pure (toString nt.1 ++ " " ++ hexOfBytes nt.2)
+  -- action level: `act <site> <kind> <hex token>`; `arr <number of [] pairs>`; `mapdim <inner dims>`;
+  -- `f32u <hex>` = float_32 on a NUM_FLOAT written with the panicking converter
+  | "act", [site, kind, s] => do
+    let st ← siteOf site
+    let k ← kindOf kind
+    let b ← bytesOfHex s
+    pure (actValStr (Martian.LexerActions.act st k b))
+  | "f32u", [s] => do
+    let b ← bytesOfHex s
+    pure (actValStr (Martian.LexerActions.Action.map .f32 (Martian.LexerActions.float32FloatUnchecked b)))
+  | "arr", [n] => do
+    let k ← n.toNat?
+    pure (actIntStr (Martian.LexerActions.arrList k))
+  | "arr0", [n] => do
+    let k ← n.toNat?
+    pure (actIntStr (Martian.LexerActions.arrListUnguarded k))
+  | "mapdim", [n] => do
+    let k ← n.toNat?
+    pure (toString (Martian.LexerActions.mapDim k))
   | _, _ => none
 
 end Driver.C08
